@@ -272,6 +272,10 @@ func (r *Report) Finish() int {
 		}
 		ruleCounts[o.Rule][string(o.Status)]++
 	}
+	var allKeys []string
+	for _, o := range r.Obls {
+		allKeys = append(allKeys, string(o.Status)+" "+o.Key)
+	}
 	total := len(r.Obls) - nout
 	cov := map[string]any{
 		"explanation":         r.Explanation,
@@ -286,6 +290,7 @@ func (r *Report) Finish() int {
 		"rule":                "obligations are rule instances discovered from the loaded program (implementers, call sites, stores, table rows); non-trivial = discharge (or violation) needed at least one program fact (dominating guard, effect summary, table row, flow edge); distinct by obligation key",
 		"samples":             samples,
 		"per_rule":            ruleCounts,
+		"all_obligations":     allKeys,
 		"exceptions_used":     r.Exceptions,
 		"analysed":            r.Counts,
 		"checker_cmd":         fmt.Sprintf("bin/tinkverif check %s --tier %s", r.Property, r.Tier),
